@@ -1,25 +1,19 @@
-// scratch experiment: wrist folded back (q5 = pi) continuation
+use opwv::glue::*;
+use opwv::model::*;
 use rs_opw_kinematics::kinematic_traits::Kinematics;
-use rs_opw_kinematics::kinematics_impl::OPWKinematics;
-use rs_opw_kinematics::parameters::opw_kinematics::Parameters;
 fn main() {
-    for (name, p) in [("custom", Parameters { a1: 0.15, a2: 0.0, b: 0.0, c1: 0.55, c2: 0.625, c3: 0.625, c4: 0.11, offsets: [0.0; 6], sign_corrections: [1; 6], dof: 6 }), ("irb2400", Parameters::irb2400_10()), ("tx2_160l", Parameters::staubli_tx2_160l()), ("kr6", Parameters::kuka_kr6_r700_sixx())] {
-    println!("== {}", name);
-    let k = OPWKinematics::new(p);
-    for q5 in [0.0, std::f64::consts::PI, -std::f64::consts::PI] {
-        for (j4, j6) in [(0.0, 0.0), (0.4, 0.3), (-1.0, 2.0)] {
-            let q = [0.2, 0.1, 1.2, j4, q5, j6];
-            let pose = k.forward(&q);
-            let mut prev = q;
-            prev[5] -= 0.5;
-            let plain = k.inverse(&pose);
-            let cont = k.inverse_continuing(&pose, &prev);
-            let on = |s: &[f64; 6]| (0..3).all(|t| (s[t] - q[t]).abs() < 1e-4);
-            println!("q5={:.3} j4={} j6={}: plain {} (on-branch {}), continuing {} (on-branch {}), singular={:?}", q5, j4, j6, plain.len(), plain.iter().filter(|s| on(s)).count(), cont.len(), cont.iter().filter(|s| on(s)).count(), k.kinematic_singularity(&q));
-            for s in cont.iter().filter(|s| on(s)) {
-                println!("    {:?}", s);
-            }
-        }
-    }
-    }
+    let r = RobotSpec { a1: 0.15, a2: 0.0, b: 0.0, c1: 0.55, c2: 0.625, c3: 0.625, c4: 0.11, offsets: [0.0; 6], signs: [1; 6], dof: 6 };
+    let k = opw(&r);
+    let j = [0.0, -1.9602654745447579, 1.5707963267948966, 0.0, 1.5707963267948966, 3.141592653589793];
+    let pose = to_na(&r.fk(&j));
+    let a = k.inverse(&pose);
+    println!("answers for q: {}", a.len());
+    for s in &a { println!("  {:?}", s); }
+    let s0 = [3.141592653589793, -0.0670892978490546, 2.1072696041718397, -1.4191867617311956e-15, 3.0616778218117666, -1.4906226026301276e-15];
+    let b = k.inverse(&to_na(&r.fk(&s0)));
+    println!("answers for pose of answer: {}", b.len());
+    for s in &b { println!("  {:?}", s); }
+    // library forward of the pose, too
+    let b2 = k.inverse(&k.forward(&s0));
+    println!("via library forward: {}", b2.len());
 }
